@@ -1,14 +1,16 @@
 /-
 C01 — stored content reads back byte-identical at the address returned on insertion.
 
-Rung 1 (structure level, all insertion sequences, all arrival orders) and rung 2 (codecs of the
-structures involved).  The file-level statement (`contentGet (contentPackWrite …) i`) is the goal
-kept at the end of this file; until it is closed the step from structures to file bytes is
-covered by the byte-exact correspondence (`cp.encode` / `cp.decode`).
+Rung 1 (structure level, all insertion sequences, all arrival orders), rung 2 (codecs of the
+structures involved) and rung 3, the file-level statement: reading content `i` out of the *bytes*
+written by `contentPackWrite` gives back the `i`-th inserted byte string (`c01_file_roundtrip`),
+and an address past the count answers "no such content" (`c01_file_past_end`).  The correspondence
+check ties `contentPackWrite` / `contentGet` to the Rust writer and reader (`cp.encode`, `cp.decode`).
 -/
 import JubakoModel.Model.ContentSpec
 import JubakoModel.Lemmas.Creator
 import JubakoModel.Lemmas.Codec
+import JubakoModel.Lemmas.ContentFile
 
 namespace Jubako
 
@@ -45,6 +47,40 @@ theorem c01_indices_fit (items : List Item) :
     (cluster id < 2^20 is the format's limit: 2^20 clusters of ≥ 1 byte) -/
 theorem c01_content_info_codec (c b : Nat) (hc : c < 2 ^ 20) (hb : b < 2 ^ 12) :
     contentInfoDecode (contentInfoEncode c b) = (c, b) := contentInfo_roundtrip c b hc hb
+
+/-- **File level, every insertion sequence, every arrival order, every sound codec.**  The bytes
+    of the content pack written for `items` — clusters laid out in whatever order `arrival` they
+    reached the writer — read back, at address `i`, as exactly the `i`-th inserted byte string.
+    Hypotheses are the format's own limits (see `contentGet_contentPackWrite` for the field each
+    one comes from): compression byte ≤ 3; a non-compressing pack compresses nothing; fixed-size
+    vendor/uuid/free-data; < 2^32 contents; ≤ 2^20 clusters; total data < 2^64; file < 2^48 bytes. -/
+theorem c01_file_roundtrip (H : Bytes → Bytes) (codec : Codec) (hcodec : codec.Sound)
+    (hbyte : codec.byte ≤ 3) (m : ContentPackMeta) (hm : m.WF)
+    (items : List Item) (arrival : List Cluster)
+    (hp : arrival.Perm ((Creator.init.addAll items).finalize).1)
+    (hcomp : codec.byte = 0 → ∀ it ∈ items, it.comp = false)
+    (hcount : items.length < 2 ^ 32) (hncl : arrival.length ≤ 2 ^ 20)
+    (hdata : totalSize items < 2 ^ 64)
+    (hsize : (contentPackWrite H codec m arrival ((Creator.init.addAll items).finalize).2).length < 2 ^ 48)
+    (i : Nat) (hi : i < items.length) :
+    contentGet codec.decompress'
+        (contentPackWrite H codec m arrival ((Creator.init.addAll items).finalize).2) i =
+      .ok (some (items[i]).data) :=
+  contentGet_contentPackWrite H codec hcodec hbyte m hm items arrival hp hcomp hcount hncl hdata hsize i hi
+
+/-- **An address past the count answers "no such content"** — not an error, not foreign bytes. -/
+theorem c01_file_past_end (H : Bytes → Bytes) (codec : Codec) (m : ContentPackMeta) (hm : m.WF)
+    (items : List Item) (arrival : List Cluster)
+    (hcount : items.length < 2 ^ 32) (hncl : arrival.length ≤ 2 ^ 20)
+    (hsize : (contentPackWrite H codec m arrival ((Creator.init.addAll items).finalize).2).length < 2 ^ 48)
+    (i : Nat) (hi : items.length ≤ i) :
+    contentGet codec.decompress'
+        (contentPackWrite H codec m arrival ((Creator.init.addAll items).finalize).2) i = .ok none :=
+  contentGet_contentPackWrite_none H codec m hm items arrival hcount hncl hsize i hi
+
+/-- non-vacuity of the file-level theorems: a non-identity codec, a raw cluster with an empty blob
+    and a compressed cluster, written in reverse hand-over order (`ContentFileExample`) -/
+example := @ContentFileExample.arrival_not_identity
 
 /-- non-vacuity: a 3-item sequence mixing a raw and a compressed cluster, non-identity arrival -/
 example :
